@@ -331,6 +331,13 @@ def c10_e(ctx):
                                  for (t, pol, _) in ctx.guards(up, cc)) for cc in first) and \
         any(pol is False and match(t, pattern('self._gp is None')) is not None
             for (t, pol, _) in ctx.guards(up, c))
+    okf = bool(first) and all(
+        [match(ex.term(a), pattern(p)) is not None
+         for a, p in zip(cc.args, ('x.reshape((-1, self.input_dim))', 'y.reshape((-1, 1))'))] ==
+        [True, True] for cc in first)
+    ctx.check(okf, up, 'first evidence passed as (inputs, outputs)', '_init_gp(x, y)',
+              'the first evidence is not passed as (x reshaped (n, dim), y reshaped (n, 1))',
+              fn=up, node=first[0] if first else up.node)
     ctx.check(ok, up, 'first evidence initialises, later evidence extends',
               'if _gp is None: init else: rebuild on joined evidence',
               'update does not distinguish the first evidence from later evidence by `_gp is '
